@@ -544,8 +544,11 @@ func (e *c06Exec) judge(ok bool) string {
 	if best > gos {
 		bad = append(bad, fmt.Sprintf("%d bestmove lines for %d go commands", best, gos))
 	}
+	c05 := ""
 	if best < gos {
 		bad = append(bad, fmt.Sprintf("nothing can move any more but only %d bestmove for %d go commands (go/stop lost)", best, gos))
+		// the same execution seen from C05: a go (with its stop consumed, dialogues are well formed) that is never answered
+		c05 = fmt.Sprintf(" ;; [C05] a go is never answered although the dialogue (with the stop of every go infinite) has been consumed: %d bestmove for %d go [dialogue %s steps %s]", best, gos, e.dialogue, strings.Join(e.steps, ","))
 	}
 	if consumed < len(e.dialogue) && best >= gos {
 		bad = append(bad, fmt.Sprintf("the reader is stuck before line %d", consumed))
@@ -559,7 +562,7 @@ func (e *c06Exec) judge(ok bool) string {
 	if len(bad) == 0 {
 		return "OK"
 	}
-	return "FAIL [C06] " + strings.Join(bad, "; ") + " [steps " + strings.Join(e.steps, ",") + "]"
+	return "FAIL [C06] " + strings.Join(bad, "; ") + " [steps " + strings.Join(e.steps, ",") + "]" + c05
 }
 
 func c06run(cases []string, obs, oracle *common.Out) {
